@@ -124,14 +124,14 @@ Proof.
 Qed.
 
 (* ------------------------------------------------------------------ *)
-(* shape of one step: 11 cases
-   Begin (table full) | Begin | Sent true | Sent false | BulkFail | Notify (entry) | Notify (none) | Skip | Tick |
+(* shape of one step: 12 cases
+   Begin (table full) | Begin | Sent true | Sent false | BulkFail | Notify (entry) | Notify (none) | Skip | CloseSession | Tick |
    Timeout | End *)
 
 Ltac step_cases H :=
   match type of H with
   | step ?fx ?s ?e = Ok ?s1 =>
-      destruct e as [p tmo | p ok | nb | j | | tk | p | p]; cbn [step] in H;
+      destruct e as [p tmo | p ok | nb | j | | ks | tk | p | p]; cbn [step] in H;
       [ destruct (pget (pings s) p) eqn:Ep; [discriminate|];
         destruct (table_full (tbl s)) eqn:Efull;
         [ inversion H; subst s1; clear H
@@ -145,6 +145,7 @@ Ltac step_cases H :=
         [ destruct (pget (pings s) q) as [pgq|] eqn:Epq; [|discriminate];
           destruct (p_closed pgq) eqn:Ecl; [discriminate|]; inversion H; subst s1; clear H
         | inversion H; subst s1; clear H ]
+      | inversion H; subst s1; clear H
       | inversion H; subst s1; clear H
       | destruct (clock s <=? tk)%Z eqn:Etk; [|discriminate]; inversion H; subst s1; clear H
       | destruct (pget (pings s) p) as [pgp|] eqn:Ep; [|discriminate];
@@ -313,6 +314,7 @@ Proof.
       * apply Hi.
   - constructor; auto.
   - constructor; auto.
+  - constructor; auto.
   - constructor; cbn [tbl pings next]; auto.
   - (* Timeout *)
     unfold set_pings. constructor; cbn [tbl pings next]; auto.
@@ -341,7 +343,7 @@ Proof. intros Hn. apply run_ind; [apply Inv_init; exact Hn|]. intros; eapply Inv
 
 Lemma step_no_panic fx s e : Inv s -> step fx s e <> Panic.
 Proof.
-  intros [He _ _ _ _]. destruct e as [p tmo | p ok | nb | i | | tk | p | p]; cbn [step]; try discriminate.
+  intros [He _ _ _ _]. destruct e as [p tmo | p ok | nb | i | | ks | tk | p | p]; cbn [step]; try discriminate.
   - destruct (pget (pings s) p); [discriminate|]. destruct (table_full (tbl s)); [discriminate|].
     destruct (alloc (tbl s) (next s)); discriminate.
   - destruct (pget (pings s) p) as [pg|]; [|discriminate]. destruct (p_phase pg); try discriminate.
@@ -369,7 +371,7 @@ Qed.
 (* the allocation loop of icmpRegister terminates: no reachable state makes a step run out of fuel *)
 Lemma step_no_fuel fx s e : Inv s -> step fx s e <> Fuel.
 Proof.
-  intros [He _ Hnd Hx _]. destruct e as [p tmo | p ok | nb | i | | tk | p | p]; cbn [step]; try discriminate.
+  intros [He _ Hnd Hx _]. destruct e as [p tmo | p ok | nb | i | | ks | tk | p | p]; cbn [step]; try discriminate.
   - destruct (pget (pings s) p); [discriminate|]. destruct (table_full (tbl s)) eqn:Ef; [discriminate|].
     destruct (alloc (tbl s) (next s)) eqn:Ea; [discriminate|].
     exfalso. eapply first_free_total; eauto.
@@ -434,6 +436,7 @@ Proof.
     + subst qq. destruct (He _ _ Hq) as (pg' & Hp' & Hid' & _).
       destruct (He _ _ Eq) as (pg'' & Hp'' & Hid'' & _). congruence.
     + eapply Ho; eauto.
+  - eapply Ho; eauto.
   - eapply Ho; eauto.
   - eapply Ho; eauto.
   - eapply Ho; eauto.
